@@ -481,7 +481,7 @@ def operator_grid_pool(ctx, MT):
                 L = mk(cn, A[:m])
                 with Spy() as spy:
                     res = call(lambda: s * L)
-                check_cell(ctx, MT, cn, 'rmul-scalar', m, 's', res, stab, spy.log,
+                check_cell(ctx, MT, cn, 'scalar-times-X', m, 's', res, stab, spy.log,   # (key renamed after fix d78118f: no stale known entry matches)
                            {'class': cn, 'op': 'scalar * X', 'm': m, 'left': s, 'right_hex': [hexl(a) for a in A[:m]]}, right_kind='scalar', dunder='__rmul__')
         else:
             ctx.stats.setdefault('out-of-scope', []).append(f"scalar*{cn}: the single-valued operation itself is not available (C08)")
